@@ -262,3 +262,19 @@ package metric
 //@   ghost@call inserter.Instrument#* : resAsked = resAsked + 1
 //@   assert@return#* : resAsked == len(r.inserters)
 //@   loop#1 invariant resAsked == $k
+
+// ======================================================================== C08 unregistering a multi-pipeline callback (pipeline.go)
+// Registration.Unregister of a callback registered through Meter.RegisterCallback: EVERY per-pipeline unregister function is called,
+// exactly once, in order - afterwards no reader's pipeline still runs the callback
+//@ ghost var unregCalls int
+//@ func (u unregisterFuncs) Unregister() (err error)
+//@   prop C08
+//@   overflow assumed
+//@   unchecked frame the functions are unknown function values
+//@   requires forall i in 0 .. len(u.f) : u.f[i] != nil
+//@   modifies ghost unregCalls
+//@   ghost@entry : unregCalls = 0
+//@   assert@call funcvalue#* : unregCalls == $k
+//@   ghost@call funcvalue#* : unregCalls = unregCalls + 1
+//@   assert@return#* : unregCalls == len(u.f) && $ret0 == nil
+//@   loop#1 invariant unregCalls == $k
